@@ -199,7 +199,10 @@ func defaultConfig() ref.Config {
 // newWorld builds a world. clock may be nil (no virtual time accounting).
 func newWorld(cfg ref.Config, ch *env.Chooser, clock *env.Clock) *World {
 	w := &World{BMC: ref.NewBMC(cfg), Clock: clock}
-	w.T = &env.Transport{BMC: w.BMC, Ch: ch, Clock: clock, Timeout: time.Second}
+	// replies are windows into one reused, poisoned 512-byte receive buffer, as
+	// with the real transport: a value that keeps pointing into it is overwritten
+	// by the next datagram
+	w.T = &env.Transport{BMC: w.BMC, Ch: ch, Clock: clock, Timeout: time.Second, Window: true, Poison: 0xAA}
 	w.Ctx, w.Cancel = newCtx()
 	if clock != nil {
 		clock.Cancel = w.Cancel
